@@ -190,7 +190,7 @@ class n0list_(list):
                         json_convention=json_convention,
                         skip_empty_arrays=skip_empty_arrays,
                         show_item_count=False,
-        )
+        ) or "[]"  # nothing left after skipping empty containers: the root itself stays
 
 
 ################################################################################
